@@ -43,3 +43,75 @@ theorem isFile_run (hF : IsFile F inv abs) (ops : List Op) (s : σ) (h : inv s) 
     · exact v2
 
 end Pyctr
+
+namespace Pyctr
+variable {σ : Type} {F : FileOps σ} {inv : σ → Prop} {abs : σ → AFile}
+
+def Op.isWrite : Op → Bool
+  | .write _ => true
+  | _ => false
+
+theorem isReadable_step (hF : IsReadable F inv abs) (s : σ) (h : inv s) (op : Op) (hw : op.isWrite = false) :
+    (F.step s op).1 = (AFile.ops.step (abs s) op).1 ∧
+    abs (F.step s op).2 = (AFile.ops.step (abs s) op).2 ∧ inv (F.step s op).2 := by
+  cases op with
+  | read n =>
+    obtain ⟨s', e, a, v⟩ := hF.read s n h
+    simp [FileOps.step, e, AFile.ops, a, v]
+  | write w => simp [Op.isWrite] at hw
+  | seek o w =>
+    cases hs : (abs s).seek o w with
+    | error e =>
+      have := hF.seek_err s o w e h hs
+      simp [FileOps.step, this, AFile.ops, hs, h]
+    | ok v =>
+      obtain ⟨p, a'⟩ := v
+      obtain ⟨s', e, a, v⟩ := hF.seek_ok s o w p a' h hs
+      simp [FileOps.step, e, AFile.ops, hs, a, v]
+  | tell =>
+    obtain ⟨s', e, a, v⟩ := hF.tell s h
+    simp [FileOps.step, e, AFile.ops, a, v]
+
+/-- every history of seeks, reads and tells -/
+theorem isReadable_run (hF : IsReadable F inv abs) (ops : List Op) (hro : ∀ op ∈ ops, op.isWrite = false)
+    (s : σ) (h : inv s) :
+    (F.run s ops).1 = (AFile.ops.run (abs s) ops).1 ∧
+    abs (F.run s ops).2 = (AFile.ops.run (abs s) ops).2 ∧ inv (F.run s ops).2 := by
+  induction ops generalizing s with
+  | nil => exact ⟨rfl, rfl, h⟩
+  | cons op ops ih =>
+    obtain ⟨o, a, v⟩ := isReadable_step hF s h op (hro op (by simp))
+    obtain ⟨o2, a2, v2⟩ := ih (fun op' hm => hro op' (by simp [hm])) (F.step s op).2 v
+    simp only [FileOps.run]
+    exact ⟨by simp only [o, o2, a], by simp only [a2, a], v2⟩
+
+/-- along the abstract run, no write starts past the end of a growable file -/
+def AFile.noGapRun : AFile → List Op → Prop
+  | _, [] => True
+  | a, op :: ops => (op.isWrite = true → a.noGap) ∧ AFile.noGapRun (AFile.ops.step a op).2 ops
+
+theorem isFileW_step (hF : IsFileW F inv abs) (s : σ) (h : inv s) (op : Op) (hg : op.isWrite = true → (abs s).noGap) :
+    (F.step s op).1 = (AFile.ops.step (abs s) op).1 ∧
+    abs (F.step s op).2 = (AFile.ops.step (abs s) op).2 ∧ inv (F.step s op).2 := by
+  cases op with
+  | write w =>
+    obtain ⟨s', e, a, v⟩ := hF.write s w h (hg rfl)
+    simp [FileOps.step, e, AFile.ops, a, v]
+  | read n => exact isReadable_step hF.toIsReadable s h _ rfl
+  | seek o w => exact isReadable_step hF.toIsReadable s h _ rfl
+  | tell => exact isReadable_step hF.toIsReadable s h _ rfl
+
+/-- every history in which no write starts past the end of a growable file -/
+theorem isFileW_run (hF : IsFileW F inv abs) (ops : List Op) (s : σ) (h : inv s)
+    (hg : AFile.noGapRun (abs s) ops) :
+    (F.run s ops).1 = (AFile.ops.run (abs s) ops).1 ∧
+    abs (F.run s ops).2 = (AFile.ops.run (abs s) ops).2 ∧ inv (F.run s ops).2 := by
+  induction ops generalizing s with
+  | nil => exact ⟨rfl, rfl, h⟩
+  | cons op ops ih =>
+    obtain ⟨o, a, v⟩ := isFileW_step hF s h op hg.1
+    obtain ⟨o2, a2, v2⟩ := ih (F.step s op).2 v (by rw [a]; exact hg.2)
+    simp only [FileOps.run]
+    exact ⟨by simp only [o, o2, a], by simp only [a2, a], v2⟩
+
+end Pyctr
